@@ -5,7 +5,7 @@
    by the screen stream: byte-for-byte correspondence with the render model, and an independent
    emulator (tools/vt.py) run on everything the implementation wrote. *)
 From Coq Require Import List Arith NArith.
-From RL Require Import UData Render Vt VtProofs.
+From RL Require Import UData Render Vt VtProofs VtRefresh.
 
 (* printing plain text: the terminal's position (deferred wrap = column count W) is, character by
    character, the position rustyline's calc_go computes -- for every text, start position and width *)
@@ -26,6 +26,46 @@ Theorem C02_layout_agrees_partial :
   = (let n := next_cell (print W s v) in mkP (snd n) (fst n)).
 Proof. exact layout_agrees. Qed.
 Print Assumptions C02_layout_agrees_partial.
+
+(* the bytes a refresh writes are the standard encoding (CR, ESC[K, ESC[A, ESC[nA/B/C, CR LF for a written LF)
+   of a list of terminal operations *)
+Theorem C02_refresh_bytes_encode :
+  forall (prompt line : str) (old new : layout),
+  refresh_bytes prompt line line None old new = encode_all (refresh_ops prompt line old new).
+Proof. exact refresh_bytes_encode. Qed.
+Print Assumptions C02_refresh_bytes_encode.
+
+(* THE DISPLAY STEP (plain text): from ANY screen about which the old layout's bookkeeping is right -- cursor
+   row known, nothing drawn below the old end row, whatever is on the rows above that -- a full redraw leaves
+   exactly the prompt + line as a blank screen would show them, nothing left over, the terminal cursor on the
+   cell of the logical cursor, no wrap pending, and the new layout's bookkeeping is right again *)
+Theorem C02_refresh_ok_partial :
+  forall (U : UData) (seg : str -> list str) (W tab_stop : nat), 1 <= W ->
+  forall (p before after : str) (old : layout) (v : vt),
+  plain U seg p -> plain U seg before -> plain U seg after ->
+  tracks old v ->
+  let line := before ++ after in
+  let new := compute_layout U seg W tab_stop (calculate_position U seg W tab_stop p P0) true before after None in
+  let v' := run W (refresh_ops p line old new) v in
+  (forall r c, v_cells v' r c = shown W (p ++ line) r c)
+  /\ cursor_cell v' = next_cell (print W (p ++ before) vt0)
+  /\ v_pending v' = false
+  /\ tracks new v'.
+Proof. exact refresh_ok_partial. Qed.
+Print Assumptions C02_refresh_ok_partial.
+
+(* hence through any sequence of redraws (any edits in between) *)
+Theorem C02_redraws_ok_partial :
+  forall (U : UData) (seg : str -> list str) (W tab_stop : nat), 1 <= W ->
+  forall (p : str) (edits : list (str * str)) (old : layout) (v : vt) (before after : str),
+  plain U seg p -> Forall (fun e => plain U seg (fst e) /\ plain U seg (snd e)) (edits ++ (before, after) :: nil) ->
+  tracks old v ->
+  let '(lay, v') := redraws U seg W tab_stop p (edits ++ (before, after) :: nil) old v in
+  (forall r c, v_cells v' r c = shown W (p ++ before ++ after) r c)
+  /\ cursor_cell v' = next_cell (print W (p ++ before) vt0)
+  /\ v_pending v' = false /\ tracks lay v'.
+Proof. exact redraws_ok. Qed.
+Print Assumptions C02_redraws_ok_partial.
 
 (* non-vacuity: 7 letters in 5 columns from the anchor end on row 1, column 2 *)
 Example C02_example :
